@@ -671,6 +671,12 @@ func (w *WriteWALEntry) Encode(dst []byte) ([]byte, error) {
 	// │1 byte│ 2 bytes │ N bytes│4 bytes│ 8 bytes │ N bytes │   │1 byte│   │
 	// └──────┴─────────┴────────┴───────┴─────────┴─────────┴───┴──────┴───┘
 
+	if verifhook.Enabled && len(w.Values) > 1 {
+		// The keys of an entry are laid out in map order; the simulator needs
+		// the same bytes for the same input.
+		return w.verifEncodeSorted(dst)
+	}
+
 	encLen := w.MarshalSize() // Type (1), Key Length (2), and Count (4) for each key
 
 	// allocate or re-slice to correct size
